@@ -37,9 +37,79 @@ def parseDef (fs : List String) : Option (Cls × CommandDef) :=
                  signatureData := sig })
   | _ => none
 
+/-- attributes of the other tools that the model knows are NOT hashed: accepted on a line and ignored -/
+def unhashedKeys : List String :=
+  ["deps", "compiler-style", "link-output-path", "working-directory", "num-threads",
+   "enable-whole-module-optimization", "repair-via-ownership-analysis", "control-enabled", "expectedOutputs", "roots",
+   "typeattr", "is-mutated", "is-command-timestamp"]
+
+/-- one `key=value` field of a non-shell line; `sharedLib` says that `executable` / `other-args` belong to
+SharedLibraryShellCommand (whose recipe does not hash them) rather than to SwiftCompilerShellCommand -/
+def applyKV (sharedLib : Bool) (d : CommandDef) (kv : String) : Option CommandDef :=
+  match kv.splitOn "=" with
+  | [k, v] =>
+    if sharedLib && (k == "executable" || k == "other-args") then some d
+    else if k == "args" then (hexListDecode v).map fun l => { d with args := l }
+    else if k == "executable" then (Hex.decode v).map fun b => { d with executable := b }
+    else if k == "module-name" then (Hex.decode v).map fun b => { d with moduleName := b }
+    else if k == "module-aliases" then (hexListDecode v).map fun l => { d with moduleAliases := l }
+    else if k == "module-output-path" then (Hex.decode v).map fun b => { d with moduleOutputPath := b }
+    else if k == "sources" then (hexListDecode v).map fun l => { d with sourcesList := l }
+    else if k == "objects" then (hexListDecode v).map fun l => { d with objectsList := l }
+    else if k == "import-paths" then (hexListDecode v).map fun l => { d with importPaths := l }
+    else if k == "temps-path" then (Hex.decode v).map fun b => { d with tempsPath := b }
+    else if k == "other-args" then (hexListDecode v).map fun l => { d with otherArgs := l }
+    else if k == "is-library" then (flag v).map fun b => { d with isLibrary := b }
+    else if k == "contents" then (Hex.decode v).map fun b => { d with contents := b }
+    else if k == "type" then v.toNat?.map fun n => { d with type := n }
+    else if k == "producers" then (hexListDecode v).map fun l => { d with producers := l }
+    else if unhashedKeys.contains k then some d
+    else none
+  | _ => none
+
+/-- lines of the other tools: `<tool> <name> <inputs> <outputs> <ami> <amo> <aood> <key>=<value> ...`; the recipe
+class comes from the GENERATED tool table (`node` lines use BuildNode's recipe). -/
+def parseOther (fs : List String) : Option (Cls × CommandDef) :=
+  match fs with
+  | tool :: name :: ins :: outs :: ami :: amo :: aood :: kvs => do
+    let cls ← if tool == "node" then some Cls.buildNode else (Generated.Signature.tools.lookup tool).map (·.2)
+    let name ← Hex.decode name
+    let ins ← hexListDecode ins
+    let outs ← hexListDecode outs
+    let ami ← flag ami
+    let amo ← flag amo
+    let aood ← flag aood
+    -- a tool whose scalar `configureAttribute` overload accepts every name without delegating to ExternalCommand
+    -- (GENERATED list; today: shared-library) ignores the three flags: the members keep their defaults
+    let ign := Generated.Signature.acceptsAnyScalarAttribute.contains tool
+    let (ami, amo, aood) := if ign then (false, false, false) else (ami, amo, aood)
+    let d0 : CommandDef :=
+      { name := name, inputs := ins, outputs := outs, allowMissingInputs := ami, allowModifiedOutputs := amo,
+        alwaysOutOfDate := aood, args := [], env := [], depsPaths := [], depsStyle := 0, inheritEnv := true,
+        canSafelyInterrupt := true, signatureData := [],
+        executable := "swiftc".toUTF8.toList }      -- the member's default initialiser in SwiftCompilerShellCommand
+    let d ← kvs.foldlM (applyKV (tool == "shared-library")) d0
+    some (cls, d)
+  | _ => none
+
+/-- a `key=value` field whose key is an attribute the recipes do not hash -/
+def isUnhashedKV (kv : String) : Bool :=
+  match kv.splitOn "=" with
+  | [k, _] => unhashedKeys.contains k
+  | _ => false
+
+def parseLine (fs : List String) : Option (Cls × CommandDef) :=
+  match fs with
+  | tool :: _ =>
+    if tool == "shell" || tool == "phony" then
+      -- 15 positional fields, then optionally attributes that are not hashed (working-directory, control-enabled, …)
+      if (fs.drop 15).all isUnhashedKV then parseDef (fs.take 15) else none
+    else parseOther fs
+  | [] => none
+
 /-- `HashTerm.eval (sigTerm recipe d)` with the generated recipes -/
 def stepSig (line : String) : String :=
-  match parseDef (fields line) with
+  match parseLine (fields line) with
   | some (cls, d) =>
     match Generated.Signature.recipeOf cls, sigTerm Generated.Signature.recipeOf d 4 cls with
     | some r, some t => hex64 (evalSig r t)
